@@ -140,28 +140,35 @@ def norm_fresh(r: dict[str, Any]) -> tuple[Any, ...]:
 
 # ----------------------------------------------------------------------------- catalogue D2: more constructs
 # c: four independent interface features; b: several ways of depending on c; a: uses of b
-def _c2(ret: int, attr: int, params: int, base: int) -> str:
+def _c2(ret: int, attr: int, params: int, base: int, dflt: int = 0, kind: int = 0) -> str:
+    conv = "def conv(p: int) -> int:\n    return p\n" if kind == 0 else "class conv:\n    def __init__(self, p: str) -> None: ...\n"
     return ("class B1:\n    def m(self) -> int:\n        return 1\n"
             "class B2:\n    def n(self) -> int:\n        return 1\n"
             "class K(%s):\n    x: %s = %s\n"
             "def f() -> %s:\n    return %s\n"
             "def g(%s) -> int:\n    return 1\n"
+            "def g2(p: int%s) -> int:\n    return p\n"
+            "%s"
             "v: int = 1\n") % (("B1", "B2")[base], ("int", "str")[attr], ("0", "''")[attr], ("int", "str")[ret], ("1", "''")[ret],
-                                ("p: int", "p: int, q: int")[params])
+                                ("p: int", "p: int, q: int")[params], (" = 0", "")[dflt], conv)
 
 
 D2: dict[str, dict[str, str]] = {
-    "c": {"k%d%d%d%d" % (r, t, p, b): _c2(r, t, p, b) for r in (0, 1) for t in (0, 1) for p in (0, 1) for b in (0, 1)},
+    "c": dict({"k%d%d%d%d" % (r, t, p, b): _c2(r, t, p, b) for r in (0, 1) for t in (0, 1) for p in (0, 1) for b in (0, 1)},
+              **{"k0000d": _c2(0, 0, 0, 0, dflt=1), "k0000c": _c2(0, 0, 0, 0, kind=1), "k1000d": _c2(1, 0, 0, 0, dflt=1)}),
     "b": {
         "star": "from c import *\n",
         "sub": "import c\nclass L(c.K):\n    def use(self) -> int:\n        return self.x + self.m()\n",
         "call": "import c\ndef h() -> int:\n    return c.g(1)\ny = c.f()\n",
         "deco": "import c\nfrom typing import Callable\ndef d(fn: Callable[[], int]) -> Callable[[], int]:\n    return fn\n@d\ndef w() -> int:\n    return c.f()\nclass L(c.K): pass\n",
+        "reexp": "from c import g2 as g2, conv as conv, f as f\ny = f()\n",
     },
     "a": {
         "ustar": "import b\nz: int = b.f()\nk = b.K()\nq: int = k.x\n",
         "usub": "import b\ndef t() -> int:\n    return b.L().x\n",
         "ucall": "import b\nr: int = b.y\ns: int = b.h()\n",
+        "udflt": "import b\nfrom b import conv\ndef t() -> int:\n    return b.g2()\ndef u() -> None:\n    conv(1)\n",
+        "umeth": "import b\nimport c\nclass M:\n    def g(self) -> None:\n        b.y + c.f()\n",
     },
 }
 for _m, _vs in D2.items():
